@@ -58,7 +58,11 @@ func (c *cmdFields) key() string {
 }
 
 func (c *cmdFields) String() string {
-	return fmt.Sprintf("%s origin=%x id=%d ts=%d sig=%x", c.kind, c.origin[:2], c.id, c.ts, simrt.FNV(c.sig[:]))
+	k := c.kind
+	if k == "" {
+		k = "command"
+	}
+	return fmt.Sprintf("%s origin=%x id=%d ts=%d sig=%x", k, c.origin[:2], c.id, c.ts, simrt.FNV(c.sig[:]))
 }
 
 func signable(origin identity.AgentID, id, ts uint64) []byte {
@@ -103,6 +107,9 @@ type c28World struct {
 	nextID   uint64
 	raws     []*RawPeer
 	rawN     int
+	attached map[int]*RawPeer // hub node -> raw peer dialled into it
+	hubs     map[int]*rawHub  // sleeper node -> the raw hub it dials
+	sleeper  []bool
 	rawStart map[string]time.Duration // raw peer name -> when its (last) connection attempt began
 }
 
@@ -311,30 +318,65 @@ func (w *c28World) settle(when string) {
 	}
 }
 
-// attach connects a fresh raw peer to node v, retrying (a sleeping agent only listens while it polls).
-func (w *c28World) attach(v int, limit time.Duration) *RawPeer {
-	if w.rawN >= 14 {
-		return nil
-	}
+// endpoint is where the adversary writes frames toward one agent.
+type endpoint struct {
+	name   string
+	send   func(*protocol.Frame) error
+	closed func() bool
+	id     identity.AgentID
+}
+
+// reach returns an open adversarial connection to node v, waiting up to limit: a listening
+// agent (hub) is dialled by a meshkit raw peer; a sleeper dials its raw hub by itself (at
+// start, in every poll window and after waking).
+func (w *c28World) reach(v int, fresh bool, limit time.Duration) *endpoint {
+	nd := w.m.Nodes[v]
 	deadline := simrt.Elapsed() + limit
 	for {
-		w.observe("before attach")
-		w.rawStart[fmt.Sprintf("raw%d", w.rawN)] = simrt.Elapsed()
-		rp, err := w.m.AttachRawPeer(v, w.rawN)
-		if err == nil {
-			w.rawN++
-			w.raws = append(w.raws, rp)
-			if w.obs[v].asleep {
-				simrt.Probe("c28_raw_peer_attached_during_poll")
+		w.observe("while connecting")
+		if h := w.hubs[v]; h != nil {
+			if c := h.live(); c != nil {
+				if w.obs[v].asleep {
+					simrt.Probe("c28_connected_during_poll")
+				}
+				return &endpoint{name: h.Name, id: h.ID, closed: func() bool { return c.closed },
+					send: func(f *protocol.Frame) (err error) {
+						w.m.OnNode(h.Name, "inject", func() { err = c.w.Write(f) })
+						return
+					}}
 			}
-			return rp
+		} else {
+			rp := w.attached[v]
+			if (rp == nil || rp.Closed || fresh) && w.rawN < 7 {
+				name := fmt.Sprintf("raw%d", w.rawN)
+				w.rawStart[name] = simrt.Elapsed()
+				var err error
+				rp, err = w.m.AttachRawPeer(v, w.rawN)
+				if err != nil {
+					rp = nil
+					simrt.Eventf("attach to %s failed: %v", nd.Name, err)
+				} else {
+					w.rawN++
+					w.raws = append(w.raws, rp)
+					w.attached[v] = rp
+					fresh = false
+				}
+			}
+			if rp != nil && !rp.Closed {
+				r := rp
+				return &endpoint{name: r.Name, id: r.ID, closed: func() bool { return r.Closed },
+					send: func(f *protocol.Frame) (err error) {
+						w.m.OnNode(r.Name, "inject", func() { err = r.Send(f) })
+						return
+					}}
+			}
 		}
 		if simrt.Elapsed() >= deadline {
-			simrt.Probe("c28_attach_failed")
-			simrt.Eventf("attach to %s failed: %v", w.m.Nodes[v].Name, err)
+			simrt.Probe("c28_victim_not_reached")
+			simrt.Eventf("no connection to %s within %v", nd.Name, limit)
 			return nil
 		}
-		simrt.Sleep(time.Second)
+		simrt.Sleep(500 * time.Millisecond)
 	}
 }
 
@@ -353,7 +395,7 @@ func (w *c28World) forge(v int) (cmdFields, string) {
 	origin := w.m.Nodes[w.op].ID
 	switch simrt.Choose(4, "origin") {
 	case 1:
-		origin = RawID(9)
+		origin = RawID(12)
 	case 2:
 		origin = w.m.Nodes[v].ID
 	case 3:
@@ -398,6 +440,16 @@ func (w *c28World) forge(v int) (cmdFields, string) {
 		c.sig = w.sign(w.priv, c.origin, c.id, c.ts)
 	case "replay":
 		c = base
+		// prefer a captured genuine command that has left its window, if there is one
+		var expired []cmdFields
+		for _, g := range w.captured {
+			if int64(now)-int64(g.ts) > int64((c28Window+c28Edge)/time.Second) {
+				expired = append(expired, g)
+			}
+		}
+		if len(expired) > 0 && simrt.Chance(1, 2, "replay-expired") {
+			c = expired[simrt.Choose(len(expired), "which-expired")]
+		}
 	case "random-signature":
 		for i := range c.sig {
 			c.sig[i] = byte(simrt.Choose(256, "sigbyte"))
@@ -409,14 +461,14 @@ func (w *c28World) forge(v int) (cmdFields, string) {
 var carrierNames = []string{"SLEEP_COMMAND", "WAKE_COMMAND", "QUEUED_STATE{sleep}", "QUEUED_STATE{wake}", "QUEUED_STATE{sleep,wake}"}
 
 // inject sends one forged / replayed / valid command to node v through a raw peer.
-func (w *c28World) inject(v int, rp *RawPeer) {
+func (w *c28World) inject(v int, ep *endpoint) {
 	c, fname := w.forge(v)
 	carrier := simrt.Choose(len(carrierNames), "carrier")
 	switch simrt.Choose(3, "seenby") {
 	case 1:
-		c.seenBy = []identity.AgentID{rp.ID}
+		c.seenBy = []identity.AgentID{ep.id}
 	case 2:
-		c.seenBy = []identity.AgentID{rp.ID, RawID(8)}
+		c.seenBy = []identity.AgentID{ep.id, RawID(13)}
 	}
 	sc := &protocol.SleepCommand{OriginAgent: c.origin, CommandID: c.id, Timestamp: c.ts, Signature: c.sig, SeenBy: c.seenBy}
 	wc := &protocol.WakeCommand{OriginAgent: c.origin, CommandID: c.id, Timestamp: c.ts, Signature: c.sig, SeenBy: c.seenBy}
@@ -434,7 +486,7 @@ func (w *c28World) inject(v int, rp *RawPeer) {
 		f.Type, f.Payload = protocol.FrameQueuedState, (&protocol.QueuedState{SleepCmd: sc, WakeCmd: wc}).Encode()
 	}
 	verd, _ := w.verdict(&c)
-	simrt.Eventf("inject %s in %s to %s (%s asleep=%v): %s", fname, carrierNames[carrier], w.m.Nodes[v].Name, rp.Name, w.obs[v].asleep, &c)
+	simrt.Eventf("inject %s in %s to %s (%s asleep=%v): %s", fname, carrierNames[carrier], w.m.Nodes[v].Name, ep.name, w.obs[v].asleep, &c)
 	simrt.Probe("c28_injected_" + fname)
 	if carrier >= 2 {
 		simrt.Probe("c28_queued_state_injected")
@@ -450,9 +502,7 @@ func (w *c28World) inject(v int, rp *RawPeer) {
 	if fname == "replay" && verd == 0 {
 		simrt.Probe("c28_replay_after_window")
 	}
-	var err error
-	w.m.OnNode(rp.Name, "inject", func() { err = rp.Send(f) })
-	if err != nil {
+	if err := ep.send(f); err != nil {
 		simrt.Eventf("inject: send failed: %v", err)
 	}
 	w.settle("after injected " + fname)
@@ -461,11 +511,16 @@ func (w *c28World) inject(v int, rp *RawPeer) {
 func runC28() {
 	topo := []string{"chain", "star", "ring"}[simrt.Choose(3, "topo")]
 	n := 2 + simrt.Choose(3, "n")
-	if topo == "ring" && n < 3 {
-		n = 3
+	if topo == "ring" && n < 4 {
+		topo = "chain"
 	}
+	// 3 runs in 4: agents that may sleep are pure dialers (see rawhub_test.go); 1 in 4: meshkit's own
+	// wiring, every agent may sleep whether it listens or not
+	classic := simrt.Chance(1, 4, "sleepers-with-listeners")
 	m := NewMesh(n, topo)
-	w := &c28World{m: m, byName: map[string]int{}, capKeys: map[string]bool{}, rawStart: map[string]time.Duration{}, priv: fixedKey(0x11), wrong: fixedKey(0x77)}
+	w := &c28World{m: m, byName: map[string]int{}, capKeys: map[string]bool{}, rawStart: map[string]time.Duration{},
+		attached: map[int]*RawPeer{}, hubs: map[int]*rawHub{}, sleeper: make([]bool, n),
+		priv: fixedKey(0x11), wrong: fixedKey(0x77)}
 	w.pub = w.priv.Public().(ed25519.PublicKey)
 	// the layout of the signed bytes is an assumption of this harness: cross-check it once
 	probe := &protocol.SleepCommand{OriginAgent: m.Nodes[0].ID, CommandID: 0x0102030405060708, Timestamp: 0x1112131415161718}
@@ -474,10 +529,67 @@ func runC28() {
 	}
 	pollInterval := []time.Duration{2 * time.Hour, 40 * time.Second, 20 * time.Second}[simrt.Choose(3, "poll-interval")]
 	w.op = 0
+	listenCfg := func(nd *Node) config.ListenerConfig {
+		return config.ListenerConfig{Transport: "ws", Address: fmt.Sprintf("%s:4000", nd.IP), PlainText: true, Path: "/mesh"}
+	}
+	if classic {
+		simrt.Probe("c28_mode_sleepers_with_listeners")
+		for i, nd := range m.Nodes {
+			w.sleeper[i] = true
+			if len(nd.Cfg.Listeners) == 0 {
+				nd.Cfg.Listeners = append(nd.Cfg.Listeners, listenCfg(nd))
+			}
+		}
+	} else {
+		// re-wire: even positions dial, odd positions listen (star: node 1 is the hub)
+		for _, nd := range m.Nodes {
+			nd.Cfg.Listeners, nd.Cfg.Peers = nil, nil
+		}
+		var edges [][2]int
+		switch topo {
+		case "star":
+			for i := 0; i < n; i++ {
+				if i != 1 {
+					edges = append(edges, [2]int{i, 1})
+				}
+			}
+		case "ring":
+			edges = [][2]int{{0, 1}, {2, 1}, {2, 3}, {0, 3}}
+		default:
+			for i := 0; i+1 < n; i++ {
+				if i%2 == 0 {
+					edges = append(edges, [2]int{i, i + 1})
+				} else {
+					edges = append(edges, [2]int{i + 1, i})
+				}
+			}
+		}
+		m.Edges = edges
+		for i := range m.Nodes {
+			w.sleeper[i] = true
+		}
+		for _, e := range edges {
+			d, l := m.Nodes[e[0]], m.Nodes[e[1]]
+			w.sleeper[e[1]] = false
+			if len(l.Cfg.Listeners) == 0 {
+				l.Cfg.Listeners = append(l.Cfg.Listeners, listenCfg(l))
+			}
+			d.Cfg.Peers = append(d.Cfg.Peers, config.PeerConfig{ID: l.IDHex, Transport: "ws", Address: l.Cfg.Listeners[0].Address})
+		}
+		for i, nd := range m.Nodes {
+			if !w.sleeper[i] {
+				continue
+			}
+			name := fmt.Sprintf("rawL%d", i)
+			h := newRawHub(name, RawID(8+i), fmt.Sprintf("10.0.9.%d:4000", i+1), func() { w.rawStart[name] = simrt.Elapsed() })
+			w.hubs[i] = h
+			nd.Cfg.Peers = append(nd.Cfg.Peers, config.PeerConfig{ID: hex.EncodeToString(h.ID[:]), Transport: "ws", Address: h.Addr})
+		}
+	}
 	for i, nd := range m.Nodes {
 		w.byName[nd.Name] = i
 		w.obs = append(w.obs, &agentObs{delivered: map[string]*delivery{}, firstSeen: map[string]time.Duration{}})
-		nd.Cfg.Sleep.Enabled = true
+		nd.Cfg.Sleep.Enabled = w.sleeper[i]
 		nd.Cfg.Sleep.PersistState = false
 		nd.Cfg.Sleep.PollInterval = pollInterval
 		nd.Cfg.Sleep.PollIntervalJitter = 0
@@ -486,11 +598,8 @@ func runC28() {
 		if i == w.op {
 			nd.Cfg.Management.SigningPrivateKey = hex.EncodeToString(w.priv)
 		}
-		if len(nd.Cfg.Listeners) == 0 {
-			nd.Cfg.Listeners = append(nd.Cfg.Listeners, config.ListenerConfig{Transport: "ws", Address: fmt.Sprintf("%s:4000", nd.IP), PlainText: true, Path: "/mesh"})
-		}
 	}
-	simrt.Eventf("mesh n=%d topo=%s edges=%v operator=%s poll=%v", n, topo, m.Edges, m.Nodes[w.op].Name, pollInterval)
+	simrt.Eventf("mesh n=%d topo=%s edges=%v sleepers=%v operator=%s poll=%v", n, topo, m.Edges, w.sleeper, m.Nodes[w.op].Name, pollInterval)
 	m.Tap.OnFrame = append(m.Tap.OnFrame, w.onFrame)
 	m.StartAll()
 	if !m.WaitConnected(3 * time.Minute) {
@@ -500,33 +609,30 @@ func runC28() {
 	w.observe("after boot")
 
 	canPoll := pollInterval < time.Hour
+	reachLimit := func(v int) time.Duration {
+		if w.obs[v].asleep {
+			return pollInterval + 15*time.Second
+		}
+		return 10 * time.Second
+	}
 	var bg simrt.Group // background TriggerWake calls
 	steps := 2 + simrt.Choose(7, "steps")
-	var rp *RawPeer
-	rpAt := -1
 	for s := 0; s < steps; s++ {
-		v := 1 + simrt.Choose(n-1, "victim")
-		if simrt.Chance(1, 8, "victim-is-operator") {
-			v = w.op
-		}
+		v := (1 + simrt.Choose(n, "victim")) % n // choice 0 = node 1; the operator last
 		action := simrt.Choose(8, "action")
 		switch action {
-		case 0, 1, 2: // inject through a raw peer
+		case 0, 1, 2: // inject through the adversarial peer
 			if w.obs[v].asleep && !canPoll {
 				simrt.Probe("c28_victim_unreachable")
 				continue
 			}
-			if rp == nil || rp.Closed || rpAt != v {
-				rp = w.attach(v, pollInterval+20*time.Second)
-				rpAt = v
-				if rp == nil {
-					continue
-				}
-				simrt.Sleep(300 * time.Millisecond)
+			ep := w.reach(v, false, reachLimit(v))
+			if ep == nil {
+				continue
 			}
-			w.inject(v, rp)
-			if simrt.Chance(1, 3, "second-injection") && !rp.Closed {
-				w.inject(v, rp)
+			w.inject(v, ep)
+			if simrt.Chance(1, 3, "second-injection") && !ep.closed() {
+				w.inject(v, ep)
 			}
 		case 3: // genuine mesh-wide sleep from the operator
 			if w.obs[w.op].asleep {
@@ -556,7 +662,7 @@ func runC28() {
 			})
 			w.settle("after operator TriggerWake")
 		case 5: // the victim's own operator puts it to sleep locally (no private key there: unsigned flood)
-			if w.obs[v].asleep || v == w.op {
+			if w.obs[v].asleep || v == w.op || !w.sleeper[v] {
 				continue
 			}
 			simrt.Eventf("local TriggerSleep on %s", m.Nodes[v].Name)
@@ -575,13 +681,11 @@ func runC28() {
 				simrt.Sleep(10 * time.Second)
 				w.observe("while time passes")
 			}
-		case 7: // a new peer connects: pending wake forwarding
-			if w.obs[v].asleep && !canPoll {
+		case 7: // a new peer connects to a listening agent: the connect-time (pending wake) path
+			if w.hubs[v] != nil || (w.obs[v].asleep && !canPoll) {
 				continue
 			}
-			rp = w.attach(v, pollInterval+20*time.Second)
-			rpAt = v
-			if rp != nil {
+			if ep := w.reach(v, true, reachLimit(v)); ep != nil {
 				simrt.Probe("c28_fresh_peer_connected")
 				w.settle("after a new peer connected")
 			}
@@ -598,6 +702,11 @@ func runC28() {
 	}
 	for _, r := range w.raws {
 		r.Close()
+	}
+	for i := range m.Nodes {
+		if h := w.hubs[i]; h != nil {
+			h.shutdown()
+		}
 	}
 	m.StopAll()
 	bg.Wait()
